@@ -868,6 +868,23 @@ func checkSearchConvention(c *Ctx, r *Rec, info *types.Info, lst *types.Named) {
 			r.skip("D2c-search", construct, c.pos(fd.Pos()), "no search loop found")
 			continue
 		}
+		// a search that is steered by a flag (for found && it.HasNext() { found = ... }; return found)
+		// is another design: "return on the first hit" is not how it answers
+		steered := false
+		if loop.Cond != nil {
+			ast.Inspect(loop.Cond, func(x ast.Node) bool {
+				if id, ok := x.(*ast.Ident); ok {
+					if v, isVar := info.Uses[id].(*types.Var); isVar && isBoolType(v.Type()) && writesAny(info, loop.Body, []types.Object{v}) {
+						steered = true
+					}
+				}
+				return true
+			})
+		}
+		if steered {
+			r.skip("D2c-search", construct, c.pos(fd.Pos()), "the search loop is steered by a flag that its body sets: another design, the short-circuit rule is not bound to it")
+			continue
+		}
 		env := &symEnv{info: info}
 		gIdx(env, fd)
 		paths := symRun(env, loop.Body)
